@@ -26,7 +26,7 @@ BUDGET = {"quick": 8, "thorough": 160}
 SUBS = {
     "c01": {"n": 2500}, "c02": {"n": 1200}, "c03": {"n": 1500}, "c04": {"n": 2500},
     "c05": {"n": 1200, "order": "server_first", "pair": 0}, "c06": {"n": 2500}, "c07": {"n": 1500},
-    "c08": {"universes": 8, "searches": 32, "brackets": False}, "c11": {"universes": 8, "searches": 30},
+    "c08": {"universes": 8, "searches": 32, "brackets": False}, "c11": {"universes": 8, "searches": 30, "p_twins": 0.7},
     "order": {},
 }
 
@@ -67,6 +67,9 @@ def run(snap, tier, seed, t0, replay):
                 params["third_basetype"] = True
                 params["leaf_per_basetype"] = True
             params["explicit_root"] = (k % 6 != 5)
+            if k % 8 == 6:
+                # a closed vocabulary with 'x' and 'x_big' under the '_' separator (third-party limit, listed as known finding)
+                params["prefix_vocab"], params["with_assettype"], params["sep"] = True, True, "_"
             if k % 4 == 2:
                 params["keys"]["sequence"], params["keys"]["task"] = "s\u00e9quence", "t\u00e2che"      # non-ASCII key names
         params_list.append(params)
@@ -87,6 +90,7 @@ def run(snap, tier, seed, t0, replay):
               "configurations with non-ASCII key names": (sum(1 for p in params_list if not p["keys"]["sequence"].isascii()), 1 if nconf >= 6 else 0),
               "configurations whose secondary path configurations derive from the main module": (sum(1 for p in params_list if p.get("derived_configs") and p.get("third_config_own_mapping")), 1 if nconf >= 6 else 0),
               "configurations with a basetype that names its own leaf key": (sum(1 for p in params_list if p.get("third_basetype") and p.get("leaf_per_basetype")), 1 if nconf >= 6 else 0),
+              "configurations with a vocabulary value that extends another by the separator": (sum(1 for p in params_list if p.get("prefix_vocab")), 1 if nconf >= 8 else 0),
               "partial mapping table configurations": (sum(1 for p in params_list if p["mapping_style"] == "partial"), 1 if nconf >= 6 else 0)}
     for sub in SUBS:
         floors["evaluations of %s" % sub] = (c.get("evals:" + sub, 0), nconf * (100 if sub != "order" else 2))
@@ -221,6 +225,10 @@ def worker(args):
         rec = Rec("C20")
         rec.inconclusive.append("generated configuration invalid (%s): %s" % (sub, "; ".join(probs)[:600]))
         return rec.result()
+    from lib import findings
+    findings.EXTRA_PROPS = ["C20"]
+    if params.get("prefix_vocab"):
+        os.environ["VERIF_PREFIX_VOCAB_SEP"] = params.get("sep", "_")
     mod = importlib.import_module("checks." + sub)
     res = mod.worker(args["sub_args"])
     if "_failed" in res:
